@@ -90,6 +90,18 @@ CHECKS = {
                      "procedure; for base programs all permutations, a renaming and tautology insertions must get the same verdict; in 2 (8) "
                      "configurations. No-good soundness at network level is decided by C07/C09/C10.",
                 note="Two-variable linear fragment; timeouts are undecided."),
+    "C04": dict(engine="progrun", category="exploration", design_ref="DESIGN.md §4 C04",
+                technique="bounded exhaustive enumeration of timeline programs (all pairs / a fixed slice of triples of atom templates) solved by the real solver in several configurations; exact validation of the reported times and extracted timelines",
+                text="Every pair (and a slice of triples) of state-variable atom templates - facts/goals, fixed or variable instance, free/constant/chained/zero-length times - on 1-2 instances: no two active atoms on one instance intersect, every active atom has a decided instance, extracted timeline segments hold at most one atom; 2 (8) build configurations.",
+                note="[start,end) semantics; at most 3 atoms and 2 instances."),
+    "C05": dict(engine="progrun", category="exploration", design_ref="DESIGN.md §4 C05",
+                technique="bounded exhaustive enumeration of timeline programs (all pairs / a fixed slice of triples of atom templates) solved by the real solver in several configurations; exact validation of the reported times and extracted timelines",
+                text="Every pair (and a slice of triples) of Use facts with amounts 1..3, durations 0/2/5, fixed/free start, fixed/variable resource on resources of capacity 1..3: at every pulse the active uses sum to at most the capacity and the extracted usage per segment equals that sum; 2 (8) configurations.",
+                note="At most 3 uses and 2 resources; integer amounts."),
+    "C06": dict(engine="progrun", category="exploration", design_ref="DESIGN.md §4 C06",
+                technique="bounded exhaustive enumeration of timeline programs (all pairs / a fixed slice of triples of atom templates) solved by the real solver in several configurations; exact validation of the reported times and extracted timelines",
+                text="Facts and goals on plain Interval/Impulse predicates and on StateVariable, ReusableResource, ConsumableResource and Agent predicates, with optional bounds, plus every atom of the sv/rr families: origin <= start <= end <= horizon, duration = end - start >= 0, origin <= at <= horizon; 2 (8) configurations.",
+                note="Atoms created through rules are covered by the rule family of C03 when registered."),
 }
 
 PENDING_REASON = "check not built yet in this round (planned, see DESIGN.md §4); not claimed until its quick and thorough tiers have run to completion on the unchanged tree"
@@ -146,7 +158,7 @@ ENGINES = [
      "kind_free_text": "exhaustive root-level construction histories on sat_core, truth-table oracle"},
     {"name": "relmc", "path": "harness/relmc.cpp", "serves_properties": ["C11", "C12"],
      "kind_free_text": "exhaustive relation-request enumeration judged on a model grid with pinned variables (real lra/idl/rdl theories)"},
-    {"name": "progrun", "path": "harness/progrun.cpp + lib/riddle.py + lib/fam_*.py", "serves_properties": ["C01", "C02", "C16"],
+    {"name": "progrun", "path": "harness/progrun.cpp + lib/riddle.py + lib/fam_*.py", "serves_properties": ["C01", "C02", "C04", "C05", "C06", "C16"],
      "kind_free_text": "program-level exhaustive enumeration: Python generators with exact reference semantics, real solver run per program in forked children, validators on the official JSON solution"},
     {"name": "lexmc", "path": "harness/lexmc.cpp", "serves_properties": ["C16", "C18"],
      "kind_free_text": "exhaustive text enumeration through the RIDDLE lexer/parser (reference lexer, AST capture via virtual factories, crash/hang isolation)"},
